@@ -230,6 +230,8 @@ impl InnerNodeManage {
         self.history_ranges
             .push((self.current_range.clone(), now_millis()));
         self.current_range = new_range;
+        //the naming actor decides ownership with this range; a liveness change must reach it
+        self.refresh_process_range();
     }
 
     fn clear_timeout_process_range(&mut self) {
